@@ -3,6 +3,7 @@ package checks
 import (
 	"fmt"
 	"strconv"
+	"strings"
 	"time"
 
 	jd "github.com/josephburnett/jd/v2"
@@ -286,6 +287,18 @@ func enumC03(tier string, e *engine.Emitter) {
 				if h == 0 {
 					continue
 				}
+				if strings.Contains(l.Name, "@key") || strings.Contains(l.Name, "@deep") {
+					// the same strict hunks, as text, followed by one merge hunk on a fresh key: the strict part must
+					// keep its strict meaning (all hunks, and the last hunk alone)
+					for _, m := range []uint64{(1 << uint(h)) - 1, 1 << uint(h-1)} {
+						ms := strconv.FormatUint(m, 10)
+						for k, ct := range append([]string{at, bt}, targets...) {
+							if k < 10 {
+								e.Do(engine.Case{Kind: "c03m", Leg: l.Name + "/then-merge", A: at, B: bt, C: ct, X: ms})
+							}
+						}
+					}
+				}
 				for _, m := range masksFor(h) {
 					ms := strconv.FormatUint(m, 10)
 					e.Do(engine.Case{Kind: "c03", Leg: l.Name, A: at, B: bt, C: at, X: ms})
@@ -341,6 +354,39 @@ func runC03(c *engine.Case) engine.Result {
 		want, _, rej := ref.ApplyHunks(cV, hs)
 		if rej != nil && rej.NoVerdict {
 			bucket = "no-verdict: " + rej.Reason
+			return
+		}
+		if c.Kind == "c03m" {
+			if _, isObj := cV.(map[string]interface{}); !isObj {
+				bucket = "then-merge/skipped: root is not an object"
+				return
+			}
+			text := sub.Render() + "^ {\"Merge\":true}\n@ [\"zz\"]\n+ 1\n"
+			rd, err := jd.ReadDiffString(text)
+			if err != nil {
+				fail = "strict hunks followed by a merge hunk are not readable: " + err.Error() + " | text:\n" + text
+				return
+			}
+			got := impl.Patch(c.C, rd)
+			res.Transitions++
+			res.Traces++
+			if rej != nil {
+				bucket = "then-merge/reject"
+				if got.OK {
+					fail = fmt.Sprintf("the strict part does not match the target (%s) but Patch succeeded and returned %s | text:\n%s", rej.Error(), ref.JSON(got.Val), text)
+				}
+				return
+			}
+			bucket = "then-merge/accept"
+			wv, ok := want.ToV().(map[string]interface{})
+			if !ok {
+				bucket = "then-merge/skipped: result is not an object"
+				return
+			}
+			wv["zz"] = 1.0
+			if !got.OK || !ref.Equal(got.Val, wv, ref.List) {
+				fail = fmt.Sprintf("strict hunks then merge hunk: Patch gives %s, expected %s | text:\n%s", got.String(), ref.JSON(wv), text)
+			}
 			return
 		}
 		got := impl.Patch(c.C, sub)
